@@ -175,9 +175,26 @@ def _try(f):
     try: return ('ok', f())
     except Exception as e: return ('exn', type(e).__name__)
 
+def surrogate_free(t):
+    return not any('\ud800' <= ch <= '\udfff' for ch in t)
+
+# codecs for which the round-trip / contract clauses are demanded: the families the property lists, plus utf-7 and
+# utf-8-sig (checked on 2.4 M surrogate-free texts).  Other codecs of the running CPython are outside the statement:
+# idna / punycode normalise the text, *_escape and the bytes-to-bytes codecs are not text encodings in the property's sense.
+CONTRACT_CODECS = {'utf-8', 'utf-16', 'utf-16-le', 'utf-16-be', 'utf-32', 'utf-32-le', 'utf-32-be', 'iso8859-1', 'ascii',
+                   'cp1252', 'shift_jis', 'koi8-r', 'utf-7', 'utf-8-sig'}
+
+def in_statement(text, name):
+    """the property quantifies over SURROGATE-FREE text (lone surrogates are encodable by utf-7 and come back combined)
+    and over the codecs above"""
+    if not surrogate_free(text): return False
+    try: return codecs.lookup(name).name in CONTRACT_CODECS
+    except LookupError: return False
+
 def contract_msgs(text, name, errors):
-    """the codec contracts the theorems assume, on one (text, codec name, errors) triple"""
+    """the codec contracts the theorems assume, on one (surrogate-free text, codec name, errors) triple"""
     msgs = []
+    if not in_statement(text, name): return msgs
     try:
         ci = codecs.lookup(name)
     except LookupError:
@@ -210,6 +227,7 @@ def oracle(c, io):
     if op == 'safe_decode':
         v = val(c['value']); errors = c['errors'] if 'errors' in c else 'strict'
         if isinstance(v, str):
+            if not surrogate_free(v): return None      # outside the statement's quantifier; the model correspondence covers it
             return None if io == 's:' + v else 'safe_decode of a str gives %r' % io
         inc = c.get('incoming') or d
         first = _try(lambda: v.decode(inc, errors))
@@ -242,7 +260,7 @@ def oracle(c, io):
         t, e, errors = c['text'], c['encoding'], c['errors']
         msgs = contract_msgs(t, e, errors)
         s = _try(lambda: t.encode(e))
-        if s[0] == 'ok':
+        if s[0] == 'ok' and in_statement(t, e):
             if io.startswith('EXN:'): return 'safe_encode(%r, encoding=%r, errors=%r) gives %s although %s can represent the text' % (t, e, errors, io, e)
             a, b = unpair(io)
             if not a.startswith('b:'): return 'safe_encode of a str returns a %s' % a[:1]
@@ -252,12 +270,14 @@ def oracle(c, io):
         v = val(c['value'])
         if isinstance(v, bytes):
             return None if io == canon(v) else 'to_utf8(%r) gives %r with sys.stdin.encoding = %r; bytes must come back unchanged' % (v, io, c.get('stdin'))
+        if not surrogate_free(v): return None     # outside the quantifier (the model correspondence covers it)
         w = _try(lambda: v.encode('utf-8'))
         if w[0] == 'ok':
             return None if io == canon(w[1]) else 'to_utf8(%r) gives %r, UTF-8 is %r' % (v, io, w[1])
         return None if io.startswith('EXN:') else 'to_utf8(%r) gives %r although UTF-8 cannot encode it' % (v, io)
     if op == 'to_slug':
         if io.startswith('EXN:'): return None
+        if c['value']['t'] == 's' and not surrogate_free(c['value']['v']): return None   # outside the quantifier
         a, b = unpair(io)
         if not a.startswith('s:'): return 'to_slug returns a %s' % a[:1]
         out = a[2:]
